@@ -254,6 +254,9 @@ func (c *Config) SetString(name string, idx int, value string, opts ...Option) e
 //
 // SetChild supports the options: PathSep, MetaData
 func (c *Config) SetChild(name string, idx int, value *Config, opts ...Option) error {
+	if value == nil {
+		return raiseNil(ErrNilConfig)
+	}
 	return c.setField(name, idx, cfgSub{c: value}, opts)
 }
 
